@@ -59,3 +59,12 @@ Theorem C11_pda_intersection : forall (Q0 G0 Q : Type) (E1 : EqDec Q0) (E2 : EqD
   forall w, acc_final R w <-> acc_final P w /\ Lang A w.
 Proof. exact (@pda_inter_det). Qed.
 Print Assumptions C11_pda_intersection.
+
+(* the product exploration of PDA.intersection finishes *)
+From Coq Require Import Arith.
+From PFL Require Import Proofs.Totality.
+Theorem C11_pda_intersection_total : forall (Q G QD : Type) (E1 : EqDec Q) (E2 : EqDec G) (E3 : EqDec QD) (P : pda Q G) (D : enfa QD), wf D ->
+  (forall q l A r push, In (q, l, A, r, push) (p_delta P) -> In r (p_states P)) -> (forall s, p_start P = Some s -> In s (p_states P)) ->
+  forall n, (3 * (length (p_states P) * length (e_states D)) < 2 ^ n)%nat -> exists R, pda_inter P D n = Some R.
+Proof. exact (@pda_inter_total). Qed.
+Print Assumptions C11_pda_intersection_total.
